@@ -111,6 +111,8 @@ def guard_set(atom, var):
         return s
     if op == 'not':
         return guard_set(atom.args[0], var).complement()
+    if op == 'truthy' and atom.args[0] is var:
+        return ISet.range(0, 0).complement()  # any integer but 0
     if op in ('le', 'lt', 'ge', 'gt', 'eq', 'ne'):
         a, b = atom.args
         bl = _bit_length_of(a, var), _bit_length_of(b, var)
